@@ -161,6 +161,7 @@ fn main() {
             trees_for(&mut rep, Mode::C02, tier, &["T-struct", "T-mixed", "T-num", "T-str", "T-tok"], 0.8, strict, false);
             x_all(&mut rep, Mode::C02, tier);
             spill_family(&mut rep, Mode::C02);
+            huge_strings(&mut rep, Mode::C02);
             duplicate_key_family(&mut rep, Mode::C02, tier);
             pump_family(&mut rep, Mode::C02, tier);
             history::run(&mut rep, Mode::C02, tier);
@@ -177,6 +178,7 @@ fn main() {
             // documents that only a lenient record accepts have a code map as well
             trees_for(&mut rep, Mode::C05, tier, &["T-sur"], 0.5, (true, true), false);
             spill_family(&mut rep, Mode::C05);
+            huge_strings(&mut rep, Mode::C05);
             duplicate_key_family(&mut rep, Mode::C05, tier);
             pump_family(&mut rep, Mode::C05, tier);
             history::run(&mut rep, Mode::C05, tier);
